@@ -402,9 +402,10 @@ prop("C36",
         functions=["Raft::merge_append_entries (verbatim function slice, kani/shadow/gen.py)"],
         stubs=["function slice compiled as a method of a struct holding the two fields it touches (buffered_inbound_event, ctx.node_config.raft.batching.max_merge_entries); "
                "VecDeque -> 4-slot array model; InboundEvent -> {AppendEntries(request, senders), Other}; AppendEntriesRequest / Entry -> structural stand-ins"],
-        assumptions=["queue = request A, request B, one other event"], bounds=b + "; terms, prev indexes (< 1000), commit indexes full width, max_merge_entries 0..=8: symbolic")
+        assumptions=["queue = request A, request B, one other event (three-request harness: A, B, C)"], bounds=b + "; terms, prev indexes (< 1000), commit indexes full width, max_merge_entries 0..=8: symbolic")
       for (n, b) in (("c36_merge_two_requests_1_1", "A and B carry one entry each"), ("c36_merge_two_requests_2_1", "A carries two entries, B one"),
-                     ("c36_merge_heartbeat_then_entry", "A is empty (heartbeat), B carries one entry"))])
+                     ("c36_merge_heartbeat_then_entry", "A is empty (heartbeat), B carries one entry"),
+                     ("c36_merge_three_requests", "three queued requests of one entry each (the running end must advance)"))])
 
 # C05: the last log id that feeds the election restriction is right after compaction (purge boundary)
 PROPS["C05"]["harnesses"] += [h_c19_pu] + [
